@@ -15,6 +15,8 @@
  T17 every `for x in <expr>` source via a local                        T18 a call that is the only positional argument of a statement-level call hoisted
  T19 `self.<field>.<method>(...)` statements with the receiver via a local (`_o = self.<field>; _o.<method>(...)`)
  T20 T17+T18+T19 combined
+ T21 `while cond: BODY` (no else) written `while True: if not cond: break; BODY`
+ T22 a trailing `if c: continue` guard of a loop body turned into nesting (`if not c: REST`) and vice versa where applicable
 """
 import ast, os, shutil, subprocess, sys, tempfile
 sys.path.insert(0, os.path.dirname(os.path.dirname(os.path.abspath(__file__))))
@@ -211,6 +213,30 @@ class ReceiverViaLocal(_Blocks):
         return [st]
 
 
+class WhileTrue(ast.NodeTransformer):
+    def visit_While(self, node):
+        self.generic_visit(node)
+        if node.orelse or (isinstance(node.test, ast.Constant) and node.test.value is True):
+            return node
+        t = node.test
+        neg = t.operand if isinstance(t, ast.UnaryOp) and isinstance(t.op, ast.Not) else ast.UnaryOp(op=ast.Not(), operand=t)
+        return ast.While(test=ast.Constant(value=True), body=[ast.If(test=neg, body=[ast.Break()], orelse=[])] + node.body, orelse=[])
+
+
+class ContinueToNest(ast.NodeTransformer):
+    def _loop(self, node):
+        self.generic_visit(node)
+        for i, st in enumerate(node.body):
+            if isinstance(st, ast.If) and not st.orelse and len(st.body) == 1 and isinstance(st.body[0], ast.Continue) and node.body[i + 1:]:
+                t = st.test
+                neg = t.operand if isinstance(t, ast.UnaryOp) and isinstance(t.op, ast.Not) else ast.UnaryOp(op=ast.Not(), operand=t)
+                node.body = node.body[:i] + [ast.If(test=neg, body=node.body[i + 1:], orelse=[])]
+                break
+        return node
+    visit_For = _loop
+    visit_While = _loop
+
+
 def transform(root, which):
     for p in files(root):
         src = open(p).read()
@@ -245,6 +271,10 @@ def transform(root, which):
             tree = HoistArg().visit(tree)
         if which in ("T19", "T20"):
             tree = ReceiverViaLocal().visit(tree)
+        if which == "T21":
+            tree = WhileTrue().visit(tree)
+        if which == "T22":
+            tree = ContinueToNest().visit(tree)
         ast.fix_missing_locations(tree)
         out = ast.unparse(tree)
         compile(out, p, "exec")
@@ -255,7 +285,7 @@ def transform(root, which):
 
 def main():
     bad = 0
-    for which in sys.argv[1:] or ["T1", "T2", "T3", "T4", "T5", "T6", "T7", "T8", "T9", "T10", "T11", "T12", "T13", "T14", "T15", "T16", "T17", "T18", "T19", "T20"]:
+    for which in sys.argv[1:] or ["T1", "T2", "T3", "T4", "T5", "T6", "T7", "T8", "T9", "T10", "T11", "T12", "T13", "T14", "T15", "T16", "T17", "T18", "T19", "T20", "T21", "T22"]:
         tmp = tempfile.mkdtemp(prefix="tpsa-preserve-")
         try:
             shutil.copytree("/repo/src", os.path.join(tmp, "src"), ignore=shutil.ignore_patterns("__pycache__", "*.egg-info"))
